@@ -81,6 +81,8 @@ def shrink_case(kind, case, workdir, budget_s=40, max_steps=60):
 
 def check_property(prop_id, tier, seed):
     t0 = time.time()
+    if os.environ.get('VERIF_TEST_ABORT') == '1':      # self-test of the supervising parent only
+        os.abort()
     mod = load_prop(prop_id)
     workdir = core.workdir_for(prop_id)
     notes = []
